@@ -193,11 +193,17 @@ def triples(ctx):
             nb = [(p[0] + dy, p[1] + dx) for dy, dx in ((0, 0), (0, 0), (1, 0), (-1, 0), (0, 1), (0, -1)) if 0 <= p[0] + dy < h and 0 <= p[1] + dx < w]
             s2 = (g2, r.choice(nb), o, held)
             origin = 'layout-change'
-        else:
+        elif kk < 0.95:
             # perturb one feature
             p2, o2 = gen.rand_pose(r, h, w)
             s2 = (g, p2, o, r.choice([held, KEY, gen.NONE]))
             origin = 'perturbed'
+        else:
+            # only the hands differ: every (held, held') pair of a small alphabet -- nothing / keys of two colours / a non-holdable item
+            hands = [gen.NONE, (TY['Key'], 0, 1, None), (TY['Key'], 0, 4, None), gen.WALL, (TY['Door'], 0, 1, None)]
+            s = (g, p, o, r.choice(hands))
+            s2 = (g, p, o, r.choice(hands))
+            origin = 'hands-change'
         yield (s, a, s2, origin)
 
 
@@ -214,6 +220,8 @@ def run(ctx):
             d = comp.rand_reward(r, types)
             if origin == 'layout-change' and i == 0:
                 d = {'name': 'getting_closer_shortest_path', 'params': [comp.rand_param(r), comp.rand_param(r)], 'ty': TY['Exit']}
+            if origin == 'hands-change' and i == 0:
+                d = {'name': 'pickndrop', 'params': [comp.rand_param(r), comp.rand_param(r)], 'ty': r.choice([TY['Key'], TY['Key'], TY['Wall'], TY['Door']])}
             f = comp.build_reward(d)
             got = call(f, s, a, s2)
             case = {'component': d, 'state': gen.show_state(s), 'action': impl.ACTS[a].name, 'next_state': gen.show_state(s2),
